@@ -378,7 +378,7 @@ META = {
                   'apply_subroutine / apply_module are covered only by the bounded native scheduler harness (one project, 16 '
                   'manifest combinations), never counted as proved. Trusted: pyvc engine; nx.topological_sort yields every node '
                   'once, sources of edges first (ASSUMED, external); items are truthy objects; issubclass(type(node), '
-                  'item_filter) an arbitrary relation; create_definition_items returns a list of items.',
+                  'item_filter) an arbitrary relation; create_definition_items returns a list of items. The native harness also checks, on a second project with a procedure-free file (type definition + binding chain), that file-graph processing visits exactly the files containing a selected item, once.',
     'trusted_base': ['pyvc engine', 'networkx.topological_sort (external)', 'python iterator protocol model (IterModel)'],
     'assumptions': ['items are truthy (the walrus loop `while node := next(...)` relies on it)', 'termination not proved'],
 }
